@@ -518,6 +518,7 @@ type auSlotKey struct{}
 
 // auCallState is what the scripted RoundTripper knows about one call in progress.
 type auCallState struct {
+	batch     bool // started together with other calls: message halves are spread out a little
 	slot      int
 	call      *auCall
 	at        int
@@ -672,6 +673,10 @@ func (t auTransport) RoundTrip(req *http.Request) (*http.Response, error) {
 		return nil, fmt.Errorf("unsupported protocol scheme %q", req.URL.Scheme)
 	}
 	cs, _ := req.Context().Value(auSlotKey{}).(*auCallState)
+	if cs != nil && cs.batch {
+		// let the calls of a batch interleave: a short pause that differs between slots and messages
+		time.Sleep(time.Duration(((cs.slot*7+cs.regN*3+cs.tokN*5)%4)*150) * time.Microsecond)
+	}
 	r.mu.Lock()
 	defer r.mu.Unlock()
 	slot := 0
@@ -849,8 +854,8 @@ func (a auSnap) diff(q *http.Request) string {
 }
 
 // doCall makes one call through the transport under test.
-func (r *auRun) doCall(tr http.RoundTripper, slot int, call *auCall, at int) {
-	cs := &auCallState{slot: slot, call: call, at: at}
+func (r *auRun) doCall(tr http.RoundTripper, slot int, call *auCall, at int, begun *sync.WaitGroup) {
+	cs := &auCallState{slot: slot, call: call, at: at, batch: begun != nil}
 	ctx := context.WithValue(context.Background(), auSlotKey{}, cs)
 	ctx = ociauth.ContextWithRequestInfo(ctx, ociauth.RequestInfo{RequiredScope: auScope(call.Req, call.Form)})
 	if len(call.Want) > 0 {
@@ -886,6 +891,10 @@ func (r *auRun) doCall(tr http.RoundTripper, slot int, call *auCall, at int) {
 	r.mu.Lock()
 	r.log(auEv{"op": "begin", "c": slot, "h": call.H, "req": call.Req, "want": call.Want, "body": call.Body}, true)
 	r.mu.Unlock()
+	if begun != nil { // every call of the batch has begun before any of them proceeds
+		begun.Done()
+		begun.Wait()
+	}
 	status := -1
 	var panicked any
 	func() {
@@ -937,14 +946,15 @@ func auRunScen(sc *auScen) (events []auEv, ok bool) {
 		r.planned = st.At
 		r.mu.Unlock()
 		if len(st.Calls) == 1 {
-			r.doCall(tr, 1, &st.Calls[0], st.At)
+			r.doCall(tr, 1, &st.Calls[0], st.At, nil)
 		} else {
-			var wg sync.WaitGroup
+			var wg, begun sync.WaitGroup
+			begun.Add(len(st.Calls))
 			for ci := range st.Calls {
 				wg.Add(1)
 				go func(ci int) {
 					defer wg.Done()
-					r.doCall(tr, ci+1, &st.Calls[ci], st.At)
+					r.doCall(tr, ci+1, &st.Calls[ci], st.At, &begun)
 				}(ci)
 			}
 			wg.Wait()
